@@ -121,6 +121,9 @@ func runOp3(c *hlib.Ctx, st *state3, m *model3d.Mesh, forced int) result3 {
 			d.FilterFunc = func(p model3d.Coord3D) bool { return !keep[p] }
 		}
 		simple := ids == nil && c.Rng.Intn(4) == 0
+		// parameters are recorded for the replay only (the model's answer does not depend on them)
+		r.params = []string{fmt.Sprintf("plane=%g,boundary=%g,noedge=%v,corners=%v,splits=%d,aspect=%g,simple=%v",
+			d.PlaneDistance, d.BoundaryDistance, d.NoEdgePreservation, d.EliminateCorners, d.SplitAttempts, d.MinimumAspectRatio, simple)}
 		r.status = watchdog(func() {
 			if simple {
 				r.out = model3d.DecimateSimple(m, d.PlaneDistance)
@@ -143,8 +146,9 @@ func runOp3(c *hlib.Ctx, st *state3, m *model3d.Mesh, forced int) result3 {
 		})
 		r.exact, r.flat = st.exact, st.flat
 		r.coords = st.exact && st.flat
+		r.params = []string{fmt.Sprintf("eps=%g", eps)}
 		if r.coords {
-			r.params = []string{"vol"}
+			r.params = append(r.params, "vol")
 		}
 	case 4: // EliminateEdges
 		r.kind = "elimedges3"
